@@ -1,6 +1,7 @@
 package props
 
 import (
+	"bytes"
 	"fmt"
 	"sort"
 	"strings"
@@ -17,13 +18,14 @@ import (
 // ---- C04: export and JSON round trip reproduce exactly the data present -------------
 
 type c04Case struct {
-	Module *dm.Module   `json:"module"`
-	Data   dm.Tree      `json:"data"`
-	Source string       `json:"source"`
-	EnumIDs bool        `json:"enumAsIds,omitempty"` // writer option: enums by value; the reader must take them back
-	Style  dm.JSONStyle `json:"style"`
-	Pretty bool         `json:"pretty"`
-	Qual   bool         `json:"qualified"`
+	Module  *dm.Module   `json:"module"`
+	Data    dm.Tree      `json:"data"`
+	Source  string       `json:"source"`
+	EnumIDs bool         `json:"enumAsIds,omitempty"` // writer option: enums by value; the reader must take them back
+	Style   dm.JSONStyle `json:"style"`
+	Pretty  bool         `json:"pretty"`
+	Qual    bool         `json:"qualified"`
+	Reused  bool         `json:"reused,omitempty"` // the JSON text examined is the second document of one JSONWtr value
 }
 
 func genJSONStyle(t *rapid.T) dm.JSONStyle {
@@ -213,8 +215,26 @@ func c04Run(c c04Case, o *hx.Obs) {
 	src2, _ := srcNode(c.Source, c.Module, c.Data, c.Style)
 	wtr := &nodeutil.JSONWtr{Pretty: c.Pretty, QualifyNamespace: c.Qual, EnumAsIds: c.EnumIDs}
 	var text string
-	if o.Guard("JSONWtr", func() { text, xerr = wtr.JSON(node.NewBrowser(mm, src2).Root()) }) {
+	if o.Guard("JSONWtr", func() {
+		if !c.Reused {
+			text, xerr = wtr.JSON(node.NewBrowser(mm, src2).Root())
+			return
+		}
+		// the document examined is the second one the same JSONWtr value writes
+		var first, second bytes.Buffer
+		wtr.Out = &first
+		if xerr = node.NewBrowser(mm, src2).Root().InsertInto(wtr.Node()); xerr != nil {
+			return
+		}
+		src3, _ := srcNode(c.Source, c.Module, c.Data, c.Style)
+		wtr.Out = &second
+		xerr = node.NewBrowser(mm, src3).Root().InsertInto(wtr.Node())
+		text = second.String()
+	}) {
 		return
+	}
+	if c.Reused {
+		o.Class("one JSONWtr value reused for a second document")
 	}
 	if xerr != nil {
 		o.Failf("json-rt|write-error", "JSON write failed: %v", xerr)
@@ -304,7 +324,8 @@ var c04Export = hx.Register(&hx.Check[c04Case]{
 		m := dm.GenModule(t, o)
 		data := dm.GenTree(t, m.Root(), to)
 		return c04Case{Module: m, Data: data, Source: source, Style: genJSONStyle(t),
-			Pretty: rapid.Bool().Draw(t, "pretty"), Qual: rapid.Bool().Draw(t, "qual"), EnumIDs: rapid.IntRange(0, 2).Draw(t, "enum-ids") == 0}
+			Pretty: rapid.Bool().Draw(t, "pretty"), Qual: rapid.Bool().Draw(t, "qual"), EnumIDs: rapid.IntRange(0, 2).Draw(t, "enum-ids") == 0,
+			Reused: rapid.IntRange(0, 4).Draw(t, "reused") == 0}
 	},
 	Run: c04Run,
 })
@@ -315,4 +336,5 @@ func TestC04(t *testing.T) {
 	hx.Run(s, c04Export, s.N(3000, 30000))
 	hx.Run(s, c04Qualified, s.N(800, 8000))
 	hx.Run(s, c04Any, s.N(1500, 15000))
+	hx.Run(s, c04Iter, s.N(1500, 15000))
 }
